@@ -138,7 +138,7 @@ func applyLRU(c *valid.LRUCache, in lruIn) (out lruOut, pan interface{}) {
 func init() {
 	core.Register(&core.Prop{
 		ID: "C10",
-		Rule: "small histories: 2-4 goroutines x 3-6 operations (Store/Load/Delete/Len/Dump) over <=3 keys on capacities 0..2, recorded at the client boundary with call/return stamps from one atomic counter and checked with porcupine against the sequential LRU model (no per-key partitioning: eviction couples keys); " +
+		Rule: "[plus a sequential, format-agnostic Dump probe once per process: the text names every live entry by key or value and no removed value] small histories: 2-4 goroutines x 3-6 operations (Store/Load/Delete/Len/Dump) over <=3 keys on capacities 0..2, recorded at the client boundary with call/return stamps from one atomic counter and checked with porcupine against the sequential LRU model (no per-key partitioning: eviction couples keys); " +
 			"large runs: 2-16 goroutines x 10^4-10^5 operations on capacities 0..8 and 64, checked at quiescence for Len<=cap, Len==#hitting keys, Dump line count, and callback conservation (unique-store workload: stored = live + removed exactly once); all under the Go race detector. " +
 			"distinct = distinct interleaving fingerprint (hash of the call/return event order with operation kinds) of a small history, plus one per large run; non-trivial = at least two operations of different goroutines overlap in time",
 		Run:    runC10,
